@@ -276,7 +276,9 @@ def matmul(a, b):
     if isinstance(a, tuple) and is_rat(b):
         return tuple(matmul(x, b) if isinstance(x, tuple) else (x if is_unknown(x) else need(x) * b) for x in a)
     if is_rat(a) and is_rat(b):
-        return a * b
+        if a.is_const() or b.is_const():
+            return a * b
+        return F.fn("matmul", a, b)       # two whole arrays: the order of the factors matters
     return Unknown("matmul operands")
 
 
@@ -359,6 +361,7 @@ class Shared:
         self.asked = []        # (value of the test, node, decision)
         self.counter = 0
         self.modconst = {}
+        self.envs = []         # environment of the evaluation and of every helper evaluation it inlined
         self.divs = []         # (numerator value, denominator value, node) of every evaluated division
 
     def fresh(self):
@@ -388,6 +391,7 @@ class GeomEval(AutoEvaluator):
         self.sh = shared or Shared()
         self.cells = self.sh.cells
         self.calls = self.sh.calls
+        self.sh.envs.append(self.env)
         self.alias = dict(alias or {})
         self.cond = self._oracle
         self.skip = None
@@ -748,6 +752,11 @@ class GeomEval(AutoEvaluator):
             cur = self.env[node.func.value.id]
             self.env[node.func.value.id] = cur + ((v,) if meth == "append" else (tuple(v) if isinstance(v, tuple) else (v,)))
             return NONE
+        if name in ("np.size", "np.ndim") and nargs == 1:
+            v = self.ev(node.args[0])
+            sh = shape_of(v) if isinstance(v, tuple) else None
+            if sh is not None:
+                return F.const(math.prod(sh) if name == "np.size" else len(sh))
         if name == "len" and nargs == 1:
             v = self.ev(node.args[0])
             if isinstance(v, tuple):
